@@ -391,6 +391,51 @@ func TestVerifC10(t *testing.T) {
 		})
 		rec.sample(sc.Part, 2, desc)
 	}
+
+	// ---- the recorded finding, deterministically ------------------------------------
+	// An FEC group (3+2) receives its first data packet under MTU 1400; the session
+	// goes idle, SetMtu(500) is accepted, two small messages complete the group:
+	// its parity packets are as long as the longest data packet.
+	if env.mine(caseIdx) {
+		desc := map[string]any{"case": caseIdx, "part": "fec-group-straddles-an-accepted-shrink", "fec": [2]int{3, 2}, "mtu": [2]int{1400, 500}}
+		rec.beginCase(desc)
+		synctest.Test(t, func(t *testing.T) {
+			w := newSessWorld(t, rec, desc, linkCfg{D: 3, P: 2, UDPAddr: true}, uint64(caseIdx), func(from, to string, nth int, now int64, data []byte) []int { return []int{5} })
+			refTime = time.Now()
+			l := w.listen()
+			client, cconn := w.dial(2, 0x7710)
+			client.SetNoDelay(1, 10, 0, 1)
+			client.SetWriteDelay(false)
+			mon := w.watch(client, "client", cconn.addr, w.laddr, sessCfg{}, 0)
+			client.Write(make([]byte, 1300))
+			l.SetReadDeadline(time.Now().Add(time.Minute))
+			server, err := l.AcceptKCP()
+			if err != nil {
+				rec.inconcl("c10 known-finding case: accept failed: " + err.Error())
+				w.shutdown(nil, false)
+				return
+			}
+			buf := make([]byte, 4096)
+			server.SetReadDeadline(time.Now().Add(time.Minute))
+			server.Read(buf)
+			time.Sleep(100 * time.Millisecond)
+			synctest.Wait()
+			if ok := client.SetMtu(500); ok {
+				mon.flow.noteShrink(w.hub.nowMs())
+				mon.mtuNow.Store(500)
+				rec.count("session_mtu_shrunk", 1)
+			}
+			client.Write(make([]byte, 100))
+			client.Write(make([]byte, 100))
+			time.Sleep(100 * time.Millisecond)
+			synctest.Wait()
+			server.Read(buf)
+			server.Read(buf)
+			rec.eval(1)
+			w.shutdown(nil, true)
+		})
+	}
+	caseIdx++
 }
 
 type stopCase struct{}
